@@ -757,6 +757,10 @@ struct Leg {
     sock: Option<Sock>,
     /// socket only: send these bytes (not UTF-8) instead of the line on the next run
     bytes: Option<Vec<u8>>,
+    /// socket only: send the next line in two writes split at this byte, with a subscription event pushed to this
+    /// very connection in between (the connection subscribes for the occasion and unsubscribes afterwards)
+    split_next: Option<usize>,
+    split_done: u64,
 }
 
 /// What one entry point did with one line.
@@ -804,7 +808,7 @@ impl Leg {
         } else {
             None
         };
-        Leg { entry, cfg, stats, cw, hub, tx, _rx: rx, owned: Vec::new(), sock, bytes: None }
+        Leg { entry, cfg, stats, cw, hub, tx, _rx: rx, owned: Vec::new(), sock, bytes: None, split_next: None, split_done: 0 }
     }
 
     /// Send one line through this entry point, then a get_status probe.
@@ -842,11 +846,54 @@ impl Leg {
                 let probe_line = format!("{{\"jsonrpc\":\"2.0\",\"id\":\"{marker}\",\"method\":\"get_status\"}}\n");
                 let bytes = self.bytes.take();
                 let tolerate_close = bytes.is_some();
+                let split = self.split_next.take().filter(|_| bytes.is_none());
                 let mut payload: Vec<u8> = bytes.unwrap_or_else(|| line.replace('\n', " ").into_bytes());
                 payload.push(b'\n');
+                let hub = self.hub.clone();
+                let nth = self.split_done;
+                let mut did_split = false;
                 let got = rt.block_on(async {
                     let io = async {
-                        s.wr.write_all(&payload).await.ok()?;
+                        // read lines until the answer with this id; everything else is handed back
+                        async fn until_id(rd: &mut BufReader<tokio::net::unix::OwnedReadHalf>, id: &str) -> Option<Value> {
+                            loop {
+                                let mut l = String::new();
+                                if rd.read_line(&mut l).await.ok()? == 0 {
+                                    return None;
+                                }
+                                if let Ok(v) = serde_json::from_str::<Value>(l.trim()) {
+                                    if v.get("id").and_then(Value::as_str) == Some(id) {
+                                        return Some(v);
+                                    }
+                                }
+                            }
+                        }
+                        let mut sub_id: Option<String> = None;
+                        match split.filter(|p| *p >= 1 && *p + 1 < payload.len()) {
+                            Some(pos) => {
+                                s.wr.write_all(b"{\"jsonrpc\":\"2.0\",\"id\":\"vh-sub\",\"method\":\"subscribe\",\"params\":{\"topic\":\"stats\"}}\n").await.ok()?;
+                                let v = until_id(&mut s.rd, "vh-sub").await?;
+                                sub_id = v["result"].as_object().and_then(|o| o.values().find_map(|x| x.as_str().map(str::to_string)));
+                                // the first part of the line ...
+                                s.wr.write_all(&payload[..pos]).await.ok()?;
+                                tokio::time::sleep(std::time::Duration::from_millis(3)).await;
+                                // ... an event pushed to this connection while the line is incomplete ...
+                                hub.publish("stats", json!({"vh": nth})).await;
+                                loop {
+                                    let mut l = String::new();
+                                    if s.rd.read_line(&mut l).await.ok()? == 0 {
+                                        return None;
+                                    }
+                                    if serde_json::from_str::<Value>(l.trim()).ok().is_some_and(|v| v["params"]["data"]["vh"] == json!(nth)) {
+                                        break;
+                                    }
+                                }
+                                // ... and the rest of it
+                                s.wr.write_all(&payload[pos..]).await.ok()?;
+                                did_split = true;
+                            }
+                            None => s.wr.write_all(&payload).await.ok()?,
+                        }
                         s.wr.write_all(probe_line.as_bytes()).await.ok()?;
                         let mut before: Vec<String> = Vec::new();
                         loop {
@@ -856,10 +903,20 @@ impl Leg {
                                 return None; // the connection's task is gone
                             }
                             let l = l.trim_end_matches('\n').to_string();
+                            // a pushed event (the connection may hold further subscriptions to the topic from the
+                            // request sequence itself) is not an answer to anything
+                            if did_split && serde_json::from_str::<Value>(&l).ok().is_some_and(|v| v.get("id").is_none() && v["params"]["data"].get("vh").is_some()) {
+                                continue;
+                            }
                             let is_marker = serde_json::from_str::<Value>(&l)
                                 .ok()
                                 .is_some_and(|v| v.get("id").and_then(Value::as_str) == Some(marker.as_str()));
                             if is_marker {
+                                if let Some(id) = sub_id.as_ref() {
+                                    let u = format!("{{\"jsonrpc\":\"2.0\",\"id\":\"vh-unsub\",\"method\":\"unsubscribe\",\"params\":{{\"subscription_id\":\"{id}\"}}}}\n");
+                                    s.wr.write_all(u.as_bytes()).await.ok()?;
+                                    until_id(&mut s.rd, "vh-unsub").await?;
+                                }
                                 return Some((before, l));
                             }
                             before.push(l);
@@ -867,6 +924,9 @@ impl Leg {
                     };
                     tokio::time::timeout(std::time::Duration::from_secs(10), io).await.ok().flatten()
                 });
+                if did_split {
+                    self.split_done += 1;
+                }
                 match got {
                     Some((before, p)) => {
                         raw = before;
@@ -1129,6 +1189,19 @@ impl ControlEngine {
 
     /// One concrete line on every entry point. Returns per-leg outputs.
     fn run_all(&mut self, line: &str) -> Vec<Out> {
+        // every fifth line or so reaches the socket in two writes with a pushed event in between
+        let h = mix(self.key ^ self.step.wrapping_mul(0x2f17) ^ line.len() as u64);
+        if h % 5 == 0 && line.len() >= 4 {
+            let pos = 1 + (h >> 8) as usize % (line.len() - 2);
+            let mut n = 0;
+            for l in self.legs.iter_mut().filter(|l| l.entry == Entry::Socket) {
+                l.split_next = Some(pos);
+                n += 1;
+            }
+            if n > 0 {
+                self.bump("socket_lines_split_around_a_push");
+            }
+        }
         let rt = &self.rt;
         self.legs.iter_mut().map(|l| l.run(line, rt)).collect()
     }
